@@ -41,9 +41,9 @@ FORBIDDEN = re.compile(
 # ---------------------------------------------------------------------------------------
 # stream spec: (name, shardable, profile) ; profile "release" unless stated
 PROPS = {
-    "C01": dict(streams=["tbl", "fix"], exhaustive="",
+    "C01": dict(streams=["tbl", "fix", "sdt"], exhaustive="",
                 nontrivial="history with at least one operation"),
-    "C02": dict(streams=["tbl", "fix"], exhaustive="", nontrivial="history with at least one operation"),
+    "C02": dict(streams=["tbl", "fix", "sdt"], exhaustive="", nontrivial="history with at least one operation"),
     "C03": dict(streams=["tbl"], exhaustive="", nontrivial="history with at least one add"),
     "C04": dict(streams=["ent", "tbl", "fix"], exhaustive="",
                 nontrivial="any entry / any history with an operation"),
@@ -58,6 +58,8 @@ PROPS = {
                 nontrivial="value > 1"),
     "C09": dict(streams=["path"], exhaustive="every segment count 1..257 rooted/unrooted; each of the 4 positions over its alphabet and over all ASCII bytes",
                 nontrivial="non-empty string"),
+    "C06": dict(streams=["aml"], exhaustive="",
+                nontrivial="any term tree"),
     "C10": dict(streams=["aml", "amlbig"], exhaustive="all flag combinations of the extended-interrupt and address-space descriptors",
                 nontrivial="any template or descriptor"),
     "C13": dict(streams=["sdt"], exhaustive="all op sequences of length <= 2 (3 in the thorough tier) over a 34-op alphabet on a 40-byte table; every declared length 0..80",
